@@ -267,3 +267,274 @@ Proof.
     + rewrite (lvl_up_zero sp m b B Hb mid Hmid). cbn [bind]. destruct (step_up B false mid); reflexivity.
 Qed.
 End Loops.
+
+(* ---------------------------------------------------------------- width facts *)
+
+Lemma list_max_lt V b : 0 < b -> Forall (fun x => x < b) V -> list_max V < b.
+Proof.
+  intros Hb H. induction H as [|x t Hx Ht IH]; unfold list_max in *; cbn [fold_right]; [exact Hb|lia].
+Qed.
+
+Lemma bit_len_range n : n < 2 ^ 64 -> 1 <= bit_len n <= 64 /\ n < 2 ^ bit_len n.
+Proof.
+  intros Hn. destruct (N.eq_dec n 0) as [->|Hz]; [change (bit_len 0) with 1; split; [lia|reflexivity]|].
+  pose proof (bit_len_bounds n ltac:(lia)) as [_ H2]. rewrite bit_len_spec by exact Hn.
+  rewrite bit_len_spec in H2 by exact Hn. replace (n =? 0) with false in * by lia.
+  assert (N.log2 n < 64) by (apply N.log2_lt_pow2; lia). lia.
+Qed.
+
+Lemma width_v_bit_len V : Forall (fun x => x < 2 ^ 64) V -> width_v V = bit_len (list_max V).
+Proof.
+  intros HV. assert (Hm : list_max V < 2 ^ 64) by (apply list_max_lt; [lia|exact HV]).
+  unfold width_v. change (max_v V) with (list_max V). rewrite bit_len_spec by exact Hm.
+  destruct (N.eqb_spec (list_max V) 0) as [->|Hz]; [reflexivity|]. rewrite N.size_log2 by exact Hz. lia.
+Qed.
+
+Lemma index_from_fst_nodup {A} (l : list A) s : NoDup (map fst (index_from l s)).
+Proof.
+  revert s. induction l as [|x t IH]; intros s; cbn [index_from map fst]; constructor; [|apply IH].
+  intros Hin. apply in_map_iff in Hin. destruct Hin as ([p y] & E & Hy). cbn [fst] in E. subst p.
+  apply index_from_in in Hy. lia.
+Qed.
+
+(* ---------------------------------------------------------------- WMCore *)
+
+Section Core.
+Variables (sp : selpath) (m : mode) (V : list N) (levels : list bitvec).
+Hypothesis HV : Forall (fun x => x < 2 ^ 64) V.
+Hypothesis Hn : lenN V < 2 ^ 64.
+Hypothesis Hlv : Forall2 (bv_queries_ok sp m) levels (wm_columns V).
+
+Let width := bit_len (list_max V).
+Let w := N.to_nat width.
+Let L0 := index_from V 0.
+Let core := mkcore levels.
+
+Lemma core_width_range : 1 <= width <= 64 /\ N.of_nat w = width /\ (1 <= w <= 64)%nat.
+Proof.
+  assert (Hm : list_max V < 2 ^ 64) by (apply list_max_lt; [lia|exact HV]).
+  pose proof (bit_len_range _ Hm) as [H _]. unfold w, width. lia.
+Qed.
+
+Lemma core_values_small : Forall (fun x => x < 2 ^ N.of_nat w) V.
+Proof.
+  destruct core_width_range as (_ & -> & _).
+  assert (Hm : list_max V < 2 ^ 64) by (apply list_max_lt; [lia|exact HV]).
+  pose proof (bit_len_range _ Hm) as [_ H]. rewrite Forall_forall. intros x Hx. apply list_max_ge in Hx. fold width in H. lia.
+Qed.
+
+Lemma core_columns : wm_columns V = colsk snd w L0.
+Proof.
+  unfold wm_columns. fold width w. rewrite level_columns_colsk by (destruct core_width_range; lia).
+  rewrite (colsk_map_val snd). unfold L0. rewrite index_from_snd. reflexivity.
+Qed.
+
+Lemma core_levels_ok : Forall2 (bv_queries_ok sp m) levels (colsk snd w L0).
+Proof. rewrite <- core_columns. exact Hlv. Qed.
+
+Lemma core_width : wc_width core = width.
+Proof.
+  unfold wc_width, core, lenN. cbn [wc_levels]. rewrite (Forall2_len _ _ _ core_levels_ok), colsk_length.
+  destruct core_width_range; lia.
+Qed.
+
+Lemma L0_length : N.of_nat (length L0) = lenN V.
+Proof. unfold L0, lenN. rewrite index_from_length. reflexivity. Qed.
+
+Lemma core_len : wc_len core = Ok (lenN V).
+Proof.
+  pose proof core_levels_ok as H. destruct core_width_range as (_ & _ & Hw). destruct w as [|j] eqn:Ew; [lia|].
+  cbn [colsk] in H. inversion H as [|b B ls cols Hb Hrest E1 E2]; subst.
+  unfold wc_len, core. cbn [wc_levels]. unfold idx. cbn [nthN]. change (0 =? 0) with true. cbn [bind].
+  f_equal. destruct (lvl_len sp m b _ Hb) as [-> _]. rewrite lenB_map. apply L0_length.
+Qed.
+
+Lemma L0_nth i x : nth_opt V i = Some x -> nth_opt L0 i = Some (i, x).
+Proof. intros H. unfold L0. rewrite index_from_nth, H. cbn [option_map]. f_equal. Qed.
+
+Lemma L0_nth_inv i a : nth_opt L0 i = Some a -> a = (i, snd a) /\ nth_opt V i = Some (snd a).
+Proof.
+  unfold L0. rewrite index_from_nth. destruct (nth_opt V i) as [x|]; cbn [option_map]; [|discriminate].
+  intros H. injection H as <-. cbn [snd]. split; [f_equal|reflexivity].
+Qed.
+
+(* the model functions evaluate to the list-level maps *)
+Lemma eval_down_with i v : i < 2 ^ 64 ->
+  wc_map_down_with m core i v = Ok (downk snd w L0 v (N.min i (lenN V))).
+Proof.
+  intros Hi. unfold wc_map_down_with. rewrite core_len. cbn [bind]. rewrite core_width, downk_cdown.
+  apply (loop_down_with sp m width w levels); [exact core_levels_ok|apply colsk_length|destruct core_width_range; lia|lia].
+Qed.
+
+Lemma eval_down_two i1 i2 v : i1 < 2 ^ 64 -> i2 < 2 ^ 64 ->
+  wc_map_down_with_two m core i1 i2 v =
+  Ok (downk snd w L0 v (N.min i1 (lenN V)), downk snd w L0 v (N.min i2 (lenN V))).
+Proof.
+  intros H1 H2. unfold wc_map_down_with_two. rewrite core_len. cbn [bind]. rewrite core_width, !downk_cdown.
+  apply (loop_down_two sp m width w levels); [exact core_levels_ok|apply colsk_length|destruct core_width_range; lia|lia|lia].
+Qed.
+
+Lemma eval_up j v : j < 2 ^ 64 -> wc_map_up_with sp m core j v = Ok (upk snd w L0 v j).
+Proof.
+  intros Hj. unfold wc_map_up_with. rewrite core_width, upk_cup. unfold core. cbn [wc_levels].
+  apply (loop_up sp m width w levels (colsk snd w L0) 0); [exact core_levels_ok|apply colsk_length|destruct core_width_range; lia|exact Hj].
+Qed.
+
+Lemma eval_down i : i < 2 ^ 64 ->
+  wc_map_down m core i =
+  Ok (match nth_opt V i with Some x => Some (downk snd w L0 x i, x) | None => None end).
+Proof.
+  intros Hi. unfold wc_map_down. rewrite core_len. cbn [bind].
+  destruct (nth_opt V i) as [x|] eqn:Ex.
+  - pose proof (nth_opt_Some_lt _ _ _ Ex) as Hlt. unfold lenN. replace (N.of_nat (length V) <=? i) with false by lia.
+    rewrite core_width. unfold core. cbn [wc_levels].
+    rewrite (loop_down sp m width w levels (colsk snd w L0) 0 i 0 (downk snd w L0 x i, x));
+      [reflexivity|exact core_levels_ok|apply colsk_length|destruct core_width_range; lia|exact Hi|].
+    rewrite <- mdk_cmd, (mdk_spec snd w L0 i 0 (i, x) (L0_nth i x Ex)). cbn [snd]. f_equal. f_equal.
+    pose proof core_values_small as Hs. rewrite Forall_forall in Hs. rewrite N.mod_small; [lia|].
+    apply Hs. eapply nth_opt_in. exact Ex.
+  - apply nth_opt_None in Ex. unfold lenN. replace (N.of_nat (length V) <=? i) with true by lia. reflexivity.
+Qed.
+
+(* ---- the list-level maps against the specification *)
+
+Lemma reordered_levels : reordered V = sortk snd w L0.
+Proof. apply reordered_sortk; [destruct core_width_range; lia|exact core_values_small]. Qed.
+
+Lemma mod_width v : v mod 2 ^ N.of_nat w < 2 ^ N.of_nat w.
+Proof. apply N.mod_upper_bound. apply N.pow_nonzero. discriminate. Qed.
+
+Lemma downk_spec v i : i <= lenN V -> downk snd w L0 v i = map_down_with_v V i (v mod 2 ^ width).
+Proof.
+  intros Hi. destruct core_width_range as (_ & Hww & Hw64). rewrite <- Hww.
+  rewrite downk_count by (rewrite L0_length; exact Hi). unfold map_down_with_v. f_equal.
+  - rewrite less_v_cnt. unfold L0. rewrite <- (index_from_snd V 0) at 2. rewrite cnt_map.
+    apply cnt_ext_in. intros [p x] Hx. cbn [snd]. apply index_from_in in Hx. destruct Hx as [_ Hx].
+    pose proof core_values_small as Hs. rewrite Forall_forall in Hs. specialize (Hs x (nth_opt_in _ _ _ Hx)).
+    rewrite (revkey_lt_small w) by (try lia; try exact Hs; apply mod_width). rewrite krev_mod. reflexivity.
+  - rewrite rank_v_cnt.
+    replace (firstn (N.to_nat i) V) with (map snd (firstn (N.to_nat i) L0))
+      by (rewrite <- firstn_map; unfold L0; rewrite index_from_snd; reflexivity).
+    rewrite cnt_map.
+    apply cnt_ext_in. intros [p x] Hx. cbn [snd].
+    assert (Hin : In (p, x) L0) by (rewrite <- (firstn_skipn (N.to_nat i) L0); apply in_or_app; left; exact Hx).
+    apply index_from_in in Hin. destruct Hin as [_ Hin].
+    pose proof core_values_small as Hs. rewrite Forall_forall in Hs. specialize (Hs x (nth_opt_in _ _ _ Hin)).
+    rewrite (N.mod_small x) by exact Hs. reflexivity.
+Qed.
+
+Lemma L0_fst_nodup : NoDup (map fst L0).
+Proof. apply index_from_fst_nodup. Qed.
+
+Lemma reordered_fst_nodup : NoDup (map fst (reordered V)).
+Proof.
+  eapply Permutation_NoDup; [apply Permutation_map; apply Permutation_sym; apply reordered_perm|]. exact L0_fst_nodup.
+Qed.
+
+Lemma find_pos_nth (l : list (N * N)) j e s :
+  NoDup (map fst l) -> nth_opt l j = Some e -> find_pos l (fst e) s = Some (s + j).
+Proof.
+  revert j s. induction l as [|y t IH]; intros j s HN He; [discriminate|]. cbn [nth_opt] in He. cbn [find_pos].
+  cbn [map] in HN. inversion HN as [|? ? Hny HNt]; subst.
+  destruct (N.eqb_spec j 0) as [->|Hj].
+  - injection He as ->. rewrite N.eqb_refl. f_equal. lia.
+  - destruct (N.eqb_spec (fst y) (fst e)) as [E|_].
+    + exfalso. apply Hny. rewrite E. apply in_map. eapply nth_opt_in. exact He.
+    + rewrite (IH (j - 1) (s + 1) HNt He). f_equal. lia.
+Qed.
+
+Lemma nodup_nth_inj {A} (l : list A) i j e : NoDup l -> nth_opt l i = Some e -> nth_opt l j = Some e -> i = j.
+Proof.
+  intros HN Hi Hj. pose proof (nth_opt_Some_lt _ _ _ Hi). rewrite nth_opt_nth_error in Hi, Hj.
+  assert (N.to_nat i = N.to_nat j); [|lia]. apply (NoDup_nth_error l); [exact HN|lia|congruence].
+Qed.
+
+Lemma reordered_nodup : NoDup (reordered V).
+Proof. eapply NoDup_map_inv. exact reordered_fst_nodup. Qed.
+
+(* map down: the position in the reordered vector *)
+Lemma down_spec i x : nth_opt V i = Some x -> map_down_v V i = Some (downk snd w L0 x i, x).
+Proof.
+  intros Hx. unfold map_down_v. rewrite Hx.
+  pose proof (downk_nth snd w L0 i (i, x) (L0_nth i x Hx)) as Hn'. cbn [snd] in Hn'. rewrite <- reordered_levels in Hn'.
+  pose proof (find_pos_nth (reordered V) _ (i, x) 0 reordered_fst_nodup Hn') as Hf. cbn [fst] in Hf. rewrite Hf.
+  reflexivity.
+Qed.
+
+(* map up: the original position of a reordered item, provided it carries the value *)
+Lemma up_spec j v : upk snd w L0 v j = map_up_v V j (v mod 2 ^ width).
+Proof.
+  destruct core_width_range as (_ & Hww & Hw64). rewrite <- Hww.
+  pose proof core_values_small as Hs. rewrite Forall_forall in Hs.
+  unfold map_up_v. destruct (upk snd w L0 v j) as [i|] eqn:Eu.
+  - apply upk_sound in Eu; [|lia]. destruct Eu as (a & Ha & Hm & Hd).
+    apply L0_nth_inv in Ha. destruct Ha as [Ea Hv]. destruct a as [p x]. cbn [snd] in *. injection Ea as ->.
+    assert (Hx : x < 2 ^ N.of_nat w) by (apply Hs; eapply nth_opt_in; exact Hv).
+    rewrite N.mod_small in Hm by exact Hx.
+    pose proof (downk_nth snd w L0 i (i, x) (L0_nth i x Hv)) as Hn'. cbn [snd] in Hn'.
+    rewrite (downk_mod snd w L0 x v i) in Hn' by (rewrite N.mod_small by exact Hx; exact Hm).
+    rewrite Hd, <- reordered_levels in Hn'. rewrite Hn'. rewrite <- Hm, N.eqb_refl. reflexivity.
+  - destruct (nth_opt (reordered V) j) as [[p x]|] eqn:Er; [|reflexivity].
+    destruct (N.eqb_spec x (v mod 2 ^ N.of_nat w)) as [Hxv|]; [|reflexivity]. exfalso.
+    assert (Hin : In (p, x) L0).
+    { eapply Permutation_in; [apply reordered_perm|]. eapply nth_opt_in. exact Er. }
+    apply index_from_in in Hin. destruct Hin as [_ Hp]. replace (p - 0) with p in Hp by lia.
+    assert (Hx : x < 2 ^ N.of_nat w) by (apply Hs; eapply nth_opt_in; exact Hp).
+    assert (Hm : snd (p, x) mod 2 ^ N.of_nat w = v mod 2 ^ N.of_nat w) by (cbn [snd]; rewrite N.mod_small by exact Hx; exact Hxv).
+    pose proof (upk_complete snd w L0 v p (p, x) (L0_nth p x Hp) Hm) as Hc.
+    pose proof (downk_nth snd w L0 p (p, x) (L0_nth p x Hp)) as Hn'. cbn [snd] in Hn'.
+    rewrite (downk_mod snd w L0 x v p) in Hn' by (rewrite N.mod_small by exact Hx; exact Hxv).
+    rewrite <- reordered_levels in Hn'.
+    assert (j = downk snd w L0 v p) by (eapply nodup_nth_inj; [exact reordered_nodup|exact Er|exact Hn']).
+    subst j. congruence.
+Qed.
+
+(* ---- the core theorems *)
+
+Theorem core_len_width : wc_len core = Ok (lenS V) /\ wc_width core = width_v V.
+Proof. split; [exact core_len|]. rewrite core_width. symmetry. apply width_v_bit_len. exact HV. Qed.
+
+Theorem core_map_down i : i < 2 ^ 64 -> wc_map_down m core i = Ok (map_down_v V i).
+Proof.
+  intros Hi. rewrite (eval_down i Hi). f_equal. destruct (nth_opt V i) as [x|] eqn:Ex.
+  - symmetry. apply down_spec. exact Ex.
+  - unfold map_down_v. rewrite Ex. reflexivity.
+Qed.
+
+Theorem core_map_down_with i v : i < 2 ^ 64 ->
+  wc_map_down_with m core i v = Ok (map_down_with_v V i (v mod 2 ^ width_v V)).
+Proof.
+  intros Hi. rewrite (eval_down_with i v Hi). f_equal. rewrite downk_spec by lia.
+  rewrite (width_v_bit_len V HV). fold width. unfold map_down_with_v. f_equal.
+  change (lenN V) with (lenS V). apply rank_v_min.
+Qed.
+
+Theorem core_map_down_two i1 i2 v : i1 < 2 ^ 64 -> i2 < 2 ^ 64 ->
+  wc_map_down_with_two m core i1 i2 v =
+  Ok (map_down_with_v V i1 (v mod 2 ^ width_v V), map_down_with_v V i2 (v mod 2 ^ width_v V)).
+Proof.
+  intros H1 H2. rewrite (eval_down_two i1 i2 v H1 H2). rewrite !downk_spec by lia.
+  rewrite (width_v_bit_len V HV). fold width. unfold map_down_with_v. change (lenN V) with (lenS V). rewrite !rank_v_min. reflexivity.
+Qed.
+
+Theorem core_map_up_with j v : j < 2 ^ 64 ->
+  wc_map_up_with sp m core j v = Ok (map_up_v V j (v mod 2 ^ width_v V)).
+Proof. intros Hj. rewrite (eval_up j v Hj), up_spec, (width_v_bit_len V HV). reflexivity. Qed.
+
+(* mapping up inverts mapping down *)
+Theorem core_round_trip i x : nth_opt V i = Some x ->
+  exists j, wc_map_down m core i = Ok (Some (j, x)) /\ wc_map_down_with m core i x = Ok j /\
+            wc_map_up_with sp m core j x = Ok (Some i) /\ j < lenS V.
+Proof.
+  intros Hx. pose proof (nth_opt_Some_lt _ _ _ Hx) as Hlt. unfold lenN in Hn.
+  exists (downk snd w L0 x i).
+  assert (Hj : downk snd w L0 x i < lenS V).
+  { pose proof (downk_nth snd w L0 i (i, x) (L0_nth i x Hx)) as Hn'. cbn [snd] in Hn'.
+    apply nth_opt_Some_lt in Hn'. rewrite sortk_length in Hn'. unfold L0 in Hn'. rewrite index_from_length in Hn'. exact Hn'. }
+  split; [rewrite eval_down by lia; rewrite Hx; reflexivity|]. split.
+  - rewrite eval_down_with by lia. unfold lenN. rewrite N.min_l by lia. reflexivity.
+  - split; [|exact Hj]. rewrite eval_up by (unfold lenS in Hj; lia). f_equal.
+    apply (upk_complete snd w L0 x i (i, x)); [apply L0_nth; exact Hx|reflexivity].
+Qed.
+
+End Core.
